@@ -373,8 +373,10 @@ class Interpreter:
                 # Deprecated since 1.4.0
                 self._raise_event(MetaEvent('delayed event sent', event=event))
         elif isinstance(event, MetaEvent):
-            for listener in self._listeners:
-                listener(event)
+            # Iterate on a copy, as a listener can be detached while the event is delivered
+            for listener in list(self._listeners):
+                if listener in self._listeners:
+                    listener(event)
         else:
             raise ValueError(
                 'Only InternalEvent and MetaEvent can be sent by a statechart, not {}'.format(
